@@ -66,7 +66,18 @@ func (fr *Frame) execCall(cc *ssa.CallCommon, st *State, site ssa.Instruction, d
 					if site != nil {
 						fr.evalPoint = site.Block()
 					}
-					t, sks, err := fr.evalGoal(cl, st, fr.entry, nil)
+					// the actual arguments of this call are visible to the clause as arg0, arg1, ...
+					argEnv := map[string]bound{}
+					ptypes := sigParamTypes(fn.Signature)
+					if fn.Signature.Recv() != nil {
+						ptypes = append([]types.Type{fn.Signature.Recv().Type()}, ptypes...)
+					}
+					for ai, av := range args {
+						if ai < len(ptypes) {
+							argEnv[fmt.Sprintf("arg%d", ai)] = bound{av, ptypes[ai]}
+						}
+					}
+					t, sks, err := fr.evalGoal(cl, st, fr.entry, argEnv)
 					fr.evalPoint = nil
 					if err != nil {
 						return Value{}, fmt.Errorf("%s:%d: %v", cl.File, cl.Line, err)
